@@ -342,7 +342,24 @@ func (r *Run) Judge(t TB, c any, fails []Failure) {
 		return
 	}
 	r.recordFail(c, rest)
+	r.exitIfHung(rest)
 	t.Fatalf("%s/%s: %d failure(s); first: [%s] %s", r.Prop, r.Lane, len(rest), rest[0].Key, rest[0].Detail)
+}
+
+// exitIfHung ends the process once a call has been abandoned by the watchdog:
+// the abandoned goroutine keeps running (and may keep allocating), so neither
+// shrinking nor further cases are meaningful in this process. The violation is
+// committed and the result file written first; the driver confirms it by replay
+// in a fresh process.
+func (r *Run) exitIfHung(rest []Failure) {
+	for _, f := range rest {
+		if strings.HasPrefix(f.Key, "hang|") {
+			r.Commit()
+			r.write(true)
+			fmt.Fprintf(os.Stderr, "%s/%s: call abandoned by the watchdog, ending the process: [%s] %s\n", r.Prop, r.Lane, f.Key, oneLine(f.Detail))
+			os.Exit(1)
+		}
+	}
 }
 
 // JudgeNoFatal records a violation without aborting (for enumerations that should
@@ -354,6 +371,7 @@ func (r *Run) JudgeNoFatal(c any, fails []Failure) bool {
 	}
 	r.recordFail(c, rest)
 	r.Commit()
+	r.exitIfHung(rest)
 	return false
 }
 
